@@ -150,14 +150,18 @@ def r_zst_ptr(F, V):
             ops = []
             if tt["k"] == "call" and tt["dest"]["l"] == 0:
                 ops = tt["args"]
-                if (callee_path(tt) or "").endswith("invalid_mut") or (callee_path(tt) or "").endswith("dangling") or "without_provenance" in (callee_path(tt) or ""):
+                if (callee_path(tt) or "").endswith("invalid_mut") or "without_provenance" in (callee_path(tt) or ""):
                     S = sources(b, tt["args"][0]) if tt["args"] else None
                     if S and any(c.endswith("align_of") for c in S.calls):
                         ok = True
+                if "dangling" in (callee_path(tt) or ""):
+                    ok = True  # NonNull::<T>::dangling() is aligned for T by definition
                 for o in ops:
                     S = sources(b, o)
                     if S.has_load("ptr"):
                         bad = True
+                    if any("dangling" in c for c in S.calls):
+                        ok = True
             for s in blk["stmts"]:
                 if s["k"] == "assign" and s["p"]["l"] == 0:
                     for o in rv_operands(s["rv"]):
